@@ -205,6 +205,7 @@ def check(db, rep):
     else:
         _defer(r5, 'product-iterator', '%s:%d' % (inc.file, inc.line), 'not the reverse walk over the component iterators')
     _denotation(db, rep)
+    _reference_stability(db, rep)
     for cls, field in (('SDPowerSet', 'base'), ('SDDecartian', 'factors')):
         f = db.fn(O + cls + '::Clone')
         K = Keyer(f)
@@ -781,3 +782,114 @@ def _show_v(v):
     if isinstance(v, tuple):
         return '(' + ', '.join(_show_v(x) for x in v) + ')'
     return str(v)
+
+
+# ---------------------------------------------------------------------------------------------- r7: references handed out stay valid
+def _reference_stability(db, rep):
+    """A public accessor that returns a reference to an *element of a member container* hands the client something whose lifetime is the
+    container's; if a const member of that class (callable while the client only reads) clears or erases that container, every reference
+    handed out earlier dangles. Origins are traced through reference-returning callees (Iterator::operator* -> CachedSD::GetCache ->
+    cachedElements.at(i)); a value copied into storage owned by the accessor's own object (a member handle) is stable."""
+    r7 = rep.rule('r7', 'REFERENCE-STABILITY: a reference returned by a public const accessor of the data library never points into a member container that a const member of the same object can clear or erase', 2)
+    fns = [f for f in db.functions if f.name.startswith(O) and not f.rec.get('dependent') and f.body >= 0]
+    by_name = {}
+    for f in fns:
+        by_name.setdefault(f.name, []).append(f)
+    ELEM = ('at', 'operator[]', 'front', 'back', 'find', 'begin')
+    INVALIDATE_ANY = ('clear', 'erase', 'swap', 'operator=', 'assign', 'extract', 'merge')
+    INVALIDATE_VEC = ('push_back', 'emplace_back', 'insert', 'emplace', 'resize', 'reserve', 'pop_back', 'shrink_to_fit')
+    memo = {}
+
+    def is_ref(f):
+        ret = (f.rec.get('ret') or '')
+        return ret.endswith('&') or ret.endswith('::reference') or ret.endswith('::pointer') or ret.endswith('*')
+
+    def field_of_this(f, n):
+        n = f.strip(n)
+        if n is not None and n['k'] == 'MemberExpr' and n.get('mk') == 'field':
+            base = f.strip(f.children(n)[0]) if n.get('c') else None
+            if base is None or base['k'] == 'CXXThisExpr':
+                return n.get('member'), n.get('fcls') or f.cls
+        return None
+
+    def origin(f, depth=0):
+        """set of ('elem', cls, field) | ('field', cls, field) the returned reference can point to"""
+        if f.name in memo:
+            return memo[f.name]
+        memo[f.name] = set()
+        out = set()
+        for _, r in f.return_sites():
+            if 'value' not in r:
+                continue
+            stack = [f.strip(f.stmts[r['value']])]
+            while stack:
+                e = stack.pop()
+                if e is None:
+                    continue
+                if e['k'] == 'UnaryOperator' and e.get('op') in ('&', '*'):
+                    stack.append(f.strip(f.children(e)[0]))
+                    continue
+                if e['k'] == 'ConditionalOperator':
+                    stack += [f.strip(f.stmts[e['then']]), f.strip(f.stmts[e['else']])]
+                    continue
+                fo = field_of_this(f, e)
+                if fo:
+                    out.add(('field', fo[1], fo[0]))
+                    continue
+                if e['k'] in ('CXXMemberCallExpr', 'CXXOperatorCallExpr', 'CallExpr'):
+                    cs = e.get('cs') or ''
+                    last = cs.split('::')[-1]
+                    obj = f.stmts[e['obj']] if 'obj' in e else (f.stmts[e['args'][0]] if e['k'] == 'CXXOperatorCallExpr' and e.get('args') else None)
+                    if cs.startswith('std::') and obj is not None:
+                        fo = field_of_this(f, obj)
+                        if fo and last in ELEM:
+                            out.add(('elem', fo[1], fo[0]))
+                        elif fo and last in ('value', 'operator*', 'operator->', 'get'):
+                            out.add(('field', fo[1], fo[0]))          # optional / smart pointer owned by this object
+                        continue
+                    g = db.by_mn.get(e.get('mn') or '')
+                    if g is not None and g.body >= 0 and is_ref(g) and depth < 6:
+                        out |= origin(g, depth + 1)
+        memo[f.name] = out
+        return out
+    invalidators = {}
+    for f in fns:
+        for n in f.calls():
+            cs = n.get('cs') or ''
+            if not cs.startswith('std::') or 'obj' not in n and not (n['k'] == 'CXXOperatorCallExpr' and n.get('args')):
+                continue
+            last = cs.split('::')[-1]
+            obj = f.stmts[n['obj']] if 'obj' in n else f.stmts[n['args'][0]]
+            fo = field_of_this(f, obj)
+            if not fo:
+                continue
+            vec = cs.startswith('std::vector::') or cs.startswith('std::basic_string')
+            if last in INVALIDATE_ANY or (vec and last in INVALIDATE_VEC):
+                if n['k'] == 'CXXOperatorCallExpr' and last == 'operator=' and False:
+                    continue
+                invalidators.setdefault((fo[1], fo[0]), []).append((f, n, last))
+    n_pub = 0
+    for f in sorted(fns, key=lambda x: x.name):
+        if not is_ref(f) or f.rec.get('access', 0) != 0 or not f.rec.get('const'):
+            continue
+        org = origin(f)
+        elems = [o for o in org if o[0] == 'elem']
+        if not org:
+            continue
+        n_pub += 1
+        inst = '::'.join(f.name.split('::')[2:])
+        bad = None
+        for _, cls, fld in elems:
+            for g, n, last in invalidators.get((cls, fld), []):
+                if g.rec.get('const') and last != 'operator=':
+                    bad = (cls, fld, g, n, last)
+                    break
+            if bad:
+                break
+        if bad:
+            cls, fld, g, n, last = bad
+            r7.violation(inst, '%s:%d' % (f.file, f.line), 'returns a reference to an element of %s::%s, and the const member %s does `%s` (%s): a reference handed out earlier - by any iterator over the same set - dangles once it runs' % (
+                cls.split('::')[-1], fld, g.name.split('::')[-1], (n.get('txt') or last)[:40], g.loc(n)))
+        else:
+            r7.ok(inst, 'points to %s' % ', '.join(sorted('%s %s::%s' % (k, c.split('::')[-1], fl) for k, c, fl in org)) + ('; no const member invalidates it' if elems else ''), '%s:%d' % (f.file, f.line), nontrivial=bool(elems) or any(o[0] == 'field' for o in org))
+    rep.note('r7_public_reference_accessors', n_pub)
